@@ -409,6 +409,9 @@ func (r *ChunkReader) findRootNode() error {
 		return err
 	}
 	if _, err := io.ReadFull(r.readSeeker, r.currNode[:4]); err != nil {
+		if err == io.EOF {
+			err = io.ErrUnexpectedEOF
+		}
 		r.err = err
 		return err
 	}
@@ -430,6 +433,9 @@ func (r *ChunkReader) findRootNode() error {
 		return err
 	}
 	if _, err := io.ReadFull(r.readSeeker, r.currNode[:1]); err != nil {
+		if err == io.EOF {
+			err = io.ErrUnexpectedEOF
+		}
 		r.err = err
 		return err
 	}
@@ -485,6 +491,9 @@ func (r *ChunkReader) load(cOffset int64, arity uint8) error {
 		return err
 	}
 	if _, err := io.ReadFull(r.readSeeker, r.currNode[:size]); err != nil {
+		if err == io.EOF {
+			err = io.ErrUnexpectedEOF
+		}
 		r.err = err
 		return err
 	}
@@ -504,6 +513,9 @@ func (r *ChunkReader) loadAndValidate(cOffset int64,
 		return err
 	}
 	if _, err := io.ReadFull(r.readSeeker, r.currNode[:4]); err != nil {
+		if err == io.EOF {
+			err = io.ErrUnexpectedEOF
+		}
 		r.err = err
 		return err
 	}
